@@ -315,7 +315,7 @@ func run(c Case, ev *pbt.Ev) error {
 }
 
 func TestProp_Cache(t *testing.T) {
-	pbt.Run(t, pbt.Options{Prop: "C11", Name: "Cache", Quick: 6000, Thorough: 200000, Timeout: 120 * time.Second,
+	pbt.Run(t, pbt.Options{Prop: "C11", Name: "Cache", Quick: 6000, Thorough: 120000, Timeout: 120 * time.Second,
 		Rule: "rapid: directory cache (data LRU 1-3, fd LRU 1-3, Direct, SyncAdd on/off, FadvDontNeed) or memory cache; 1-8 goroutines x 1-20 ops over 2-8 keys: Add + 1-3 Writes + Commit|Abort (values 0-5000 bytes, per-call Direct), Get + full read + re-read (+ reader kept open until the end), yields; values are self-describing (key, version, length, PRG); " +
 			"oracle for every hit, evaluated after the read ended: right key, complete length, exact bytes, version whose Commit had started and which was never aborted; reads through one open reader agree; after quiescence (background persistence drained) every key is a miss or a committed value, via the memory layer and via Direct. " +
 			"non-trivial = >= 2 goroutines touched the same key and there were hits. Run under the race detector.",
